@@ -8,6 +8,7 @@ import (
 	"io"
 	"math"
 	"math/big"
+	"os"
 	"sort"
 	"strings"
 	"time"
@@ -504,6 +505,9 @@ func sortedAddrs(m map[ethcmn.Address]bool) []ethcmn.Address {
 // guard runs f and turns a panic into an error string.
 func guard(f func()) (p string) {
 	defer func() {
+		if os.Getenv("VERIF_C16_NOGUARD") != "" {
+			return
+		}
 		if r := recover(); r != nil {
 			p = fmt.Sprint(r)
 			if len(p) > 300 {
@@ -527,6 +531,8 @@ const (
 
 	// starting accounts that exist but are empty (an EVM account record with nonce 0, no code, no balance)
 	exHollow = "EVM:hollow-account"
+	// an account exists again (re-created, or credited) after it was deleted while it had persisted storage
+	exStale = "EVM:stale-storage-after-delete"
 	// contract code whose bytes equal the layered store's deletion marker
 	exCodeMarker = "EVM:code-equals-marker"
 )
@@ -544,4 +550,49 @@ func (e *exclusions) hit(tag string) {
 	if e != nil && e.count != nil {
 		e.count(tag)
 	}
+}
+
+// ghostTracker remembers, from the reference state alone, which accounts were deleted while they
+// had persisted storage.
+type ghostTracker struct {
+	ghost map[ethcmn.Address]bool
+	cand  map[ethcmn.Address]bool
+}
+
+func newGhostTracker() *ghostTracker {
+	return &ghostTracker{ghost: map[ethcmn.Address]bool{}, cand: map[ethcmn.Address]bool{}}
+}
+
+// beforeFinalise notes the accounts the coming Finalise may delete and that have committed storage.
+func (g *ghostTracker) beforeFinalise(ref *ethstate.StateDB, addrs []ethcmn.Address, slots map[ethcmn.Address][]ethcmn.Hash) {
+	g.cand = map[ethcmn.Address]bool{}
+	for _, a := range addrs {
+		if !(ref.HasSuicided(a) || (ref.Exist(a) && ref.Empty(a))) {
+			continue
+		}
+		for _, k := range slots[a] {
+			if ref.GetCommittedState(a, k) != (ethcmn.Hash{}) {
+				g.cand[a] = true
+				break
+			}
+		}
+	}
+}
+
+func (g *ghostTracker) afterFinalise(ref *ethstate.StateDB) {
+	for a := range g.cand {
+		if !ref.Exist(a) {
+			g.ghost[a] = true
+		}
+	}
+}
+
+// revived reports whether a ghost exists in the given state.
+func (g *ghostTracker) revived(s *ethstate.StateDB) bool {
+	for a := range g.ghost {
+		if s.Exist(a) {
+			return true
+		}
+	}
+	return false
 }
